@@ -202,6 +202,13 @@ fn fixed_table() -> Vec<(&'static str, Check)> {
             (id.is_some(), format!("AssignmentStmt::identifier() of `x[0] = y;` -> {:?}", id))
         }),
         ("C05-if-single-statement-then", kf_if_then),
+        ("C13-const-element-assignment", || {
+            // assigning to an element of a const register must be reported (exactly one semantic diagnostic); a non-const one must not
+            let (s1, r1) = sema_outcome("const bit[4] b = \"0101\"; b[0] = 1;");
+            let (s2, r2) = sema_outcome("bit[4] b = \"0101\"; b[0] = 1;");
+            let back = s1 == 0 && r1 == (Run::Returned { errors: 0 });
+            (back || r2 != (Run::Returned { errors: 0 }) || s2 != 0, format!("`const bit[4] b = \"0101\"; b[0] = 1;` -> {:?}; non-const control -> {:?}", r1, r2))
+        }),
         ("C03-barrier-no-operands", || c03("barrier;")),
         ("C03-stmt-body-none", || {
             let (a, wa) = c03("while (true) OPENQASM 3;");
